@@ -58,6 +58,19 @@ M = [
  ("pipectx_keep_pollfn", "src/pipe.rs", "                        if !keep_polling {\n", "                        if false {\n", "C11 C16"),
  ("desync_drop_no_sync", "src/desync.rs", "            sync(&self.queue, move || {\n                let data = data.0;\n                mem::drop(unsafe { Box::from_raw(data) });\n            });", "            let data = data.0;\n            mem::drop(unsafe { Box::from_raw(data) });", "C05 C14"),
  ("desync_deref_outside", "src/desync.rs", "        desync(&self.queue, move || {\n            let data = data.0;\n            job(unsafe { &mut *data });\n        })", "        let d = data.0; let r = unsafe { &mut *d }; let _ = r;\n        desync(&self.queue, move || {\n            let data = data.0;\n            job(unsafe { &mut *data });\n        })", "C14"),
+ # ---- session 4: the code that moved from "assumed" to "verified"
+ ("s4_notify_nobody", "src/scheduler/core.rs", "                    if let Some(cond_var) = cond_var.upgrade() {\n                        cond_var.notify_one();\n                    }", "                    if let Some(cond_var) = cond_var.upgrade() {\n                        let _ = cond_var;\n                    }", "C04 C13"),
+ ("s4_waiters_cleared", "src/scheduler/core.rs", "            core.wake_blocked.retain(|cond_var| cond_var.strong_count() > 0);", "            core.wake_blocked.retain(|cond_var| cond_var.strong_count() > 1);", "C04"),
+ ("s4_global_desync_twice", "src/scheduler/desync_scheduler.rs", "pub fn desync<TFn: 'static+Send+FnOnce() -> ()>(queue: &Arc<JobQueue>, job: TFn) {\n    scheduler().desync(queue, job)", "pub fn desync<TFn: 'static+Send+FnOnce() -> ()>(queue: &Arc<JobQueue>, job: TFn) {\n    scheduler().desync(queue, || ());\n    scheduler().desync(queue, job)", "C02 C03"),
+ ("s4_global_trysync_blocks", "src/scheduler/desync_scheduler.rs", "    scheduler().try_sync(queue, job)", "    Ok(scheduler().sync(queue, job))", "C09"),
+ ("s4_job_new_empty", "src/scheduler/job.rs", "        Job { action: Some(action) }", "        Job { action: { let _ = action; None } }", "C03"),
+ ("s4_thread_loop_skips", "src/scheduler/scheduler_thread.rs", "                    (*job)();", "                    if false { (*job)(); }", "C03 C10"),
+ ("s4_thread_catches_panics", "src/scheduler/scheduler_thread.rs", "                    (*job)();", "                    std::panic::catch_unwind(std::panic::AssertUnwindSafe(|| (*job)())).ok();", "C03 C10 C15"),
+ ("s4_unsafejob_no_pair", "src/scheduler/unsafe_job.rs", "on_finish: Some((on_finish, is_finished)) }", "on_finish: { let _ = (on_finish, is_finished); None } }", "C04 C14"),
+ ("s4_desync_new_two_queues", "src/desync.rs", "        let queue = queue();\n", "        let _spare = queue();\n        let queue = queue();\n", "C05"),
+ ("s4_reap_join_locked", "src/scheduler/core.rs", "        let mut dead_threads = vec![];\n\n        // Collate the dead threads into a vec\n        {\n", "        let mut dead_threads = vec![];\n\n        // Collate the dead threads into a vec\n        let _keep = self.max_threads.lock().expect(\"Max threads lock\");\n        {\n", "C10 C15"),
+ ("s4_nexttorun_takes_panicked", "src/scheduler/core.rs", "                QueueState::Pending |\n                QueueState::WaitingForPoll(_) => {", "                QueueState::Pending | QueueState::Panicked |\n                QueueState::WaitingForPoll(_) => {", "C15"),
+ ("s4_detach_releases", "src/scheduler/scheduler_future.rs", "        // Nothing to do, this just drops the future\n", "        // Nothing to do, this just drops the future\n        self.queue.core.lock().expect(\"JobQueue core lock\").state = QueueState::Idle;\n", "C01 C07"),
 ]
 PROPS = ["C%02d" % i for i in range(1, 18)]
 # usage: tools/mutants.py [name-substring] [-j N] [--all]     (default: only the properties each mutant is expected to break, 6 at a time)
